@@ -527,9 +527,21 @@ Section Closure.
     - apply IH. exact H1.
   Qed.
 
-  Lemma P_fold_remove l : forall w, P w -> P (fold_left agent_remove l w).
+  Lemma P_creates m l : forall w, P w -> P (creates w m l).
   Proof.
-    induction l as [|k t IH]; intros w HP; simpl; [exact HP|]. apply IH. apply P_dereg. exact HP.
+    unfold creates. induction l as [|cv t IH]; intros w HP; simpl; [exact HP|]. apply IH. apply P_init. exact HP.
+  Qed.
+
+  Lemma P_obj_remove w k : P w -> P (obj_remove w k).
+  Proof.
+    intros HP. unfold obj_remove. destruct (find_agent (w_born w) k) as [a|]; [|exact HP].
+    destruct (ov_of (a_cls a)) as [o|]; [|apply P_dereg; exact HP].
+    apply P_creates. destruct (ov_super o); [apply P_dereg|]; apply P_creates; exact HP.
+  Qed.
+
+  Lemma P_fold_remove l : forall w, P w -> P (fold_left obj_remove l w).
+  Proof.
+    induction l as [|k t IH]; intros w HP; simpl; [exact HP|]. apply IH. apply P_obj_remove. exact HP.
   Qed.
 
   Lemma P_remove_all w m : P w -> P (remove_all w m).
@@ -540,8 +552,8 @@ Section Closure.
   Lemma P_exec_act w self a : P w -> P (exec_act w self a).
   Proof.
     intros HP. destruct a; simpl; try exact HP.
-    - apply P_dereg. exact HP.
-    - apply P_dereg. exact HP.
+    - apply P_obj_remove. exact HP.
+    - apply P_obj_remove. exact HP.
     - apply P_init. exact HP.
     - apply P_create_loop. exact HP.
     - apply P_remove_all. exact HP.
@@ -564,7 +576,8 @@ Section Closure.
     - destruct (getm (w_models w) m); [|exact HP].
       pose proof (P_create_loop m c f n (seq 0 (Z.to_nat n)) w HP) as H. unfold create_agents.
       destruct (create_loop w m c f n (seq 0 (Z.to_nat n))) as [w' ks]. exact H.
-    - pose proof (P_dereg w k HP) as H. destruct (deregister_obj w k) as [w' [b|]]; exact H.
+    - destruct (find_agent (w_born w) k) as [a|]; [|exact HP].
+      destruct (getm (w_models w) (a_model a)); [|exact HP]. apply P_obj_remove. exact HP.
     - pose proof (P_dereg w k HP) as H. destruct (deregister_obj w k) as [w' [[|]|]]; exact H.
     - destruct (getm (w_models w) m); [|exact HP]. apply P_remove_all. exact HP.
     - destruct (getm (w_models w) m) as [ms|]; [|exact HP].
@@ -579,8 +592,11 @@ End Closure.
 Lemma create_agents_inv s w m c n f : Inv s w -> Inv s (fst (create_agents w m c n f)).
 Proof. apply (P_create_loop (Inv s)). intros w0 m0 c0 p0. apply agent_init_inv. Qed.
 
+Lemma obj_remove_inv s w k : Inv s w -> Inv s (obj_remove w k).
+Proof. apply (P_obj_remove (Inv s)); [intros w0 m0 c0 p0; apply agent_init_inv|intros w0 k0; apply deregister_obj_inv]. Qed.
+
 Lemma remove_all_inv s w m : Inv s w -> Inv s (remove_all w m).
-Proof. apply (P_remove_all (Inv s)). intros w0 k0. apply deregister_obj_inv. Qed.
+Proof. apply (P_remove_all (Inv s)); [intros w0 m0 c0 p0; apply agent_init_inv|intros w0 k0; apply deregister_obj_inv]. Qed.
 
 Lemma exec_act_inv s w self a : Inv s w -> Inv s (exec_act w self a).
 Proof.
@@ -711,8 +727,8 @@ Proof.
   - destruct (getm (w_models w) m); [|exact HI].
     pose proof (create_agents_inv s w m c n f HI) as H.
     destruct (create_agents w m c n f) as [w' ks]. exact H.
-  - pose proof (deregister_obj_inv s w k HI) as H.
-    destruct (deregister_obj w k) as [w' [b|]]; exact H.
+  - destruct (find_agent (w_born w) k) as [a|]; [|exact HI].
+    destruct (getm (w_models w) (a_model a)); [|exact HI]. apply obj_remove_inv. exact HI.
   - pose proof (deregister_obj_inv s w k HI) as H.
     destruct (deregister_obj w k) as [w' [[|]|]]; exact H.
   - destruct (getm (w_models w) m); [|exact HI]. apply remove_all_inv. exact HI.
@@ -1005,21 +1021,85 @@ Proof.
   eapply getm_setm_other; [exact Eg|]. intros ->. exact (H a eq_refl eq_refl).
 Qed.
 
-Lemma fold_remove_born l : forall w, w_born (fold_left agent_remove l w) = w_born w.
+(* the heap only grows: an object that is found stays found, unchanged *)
+Lemma find_agent_app born ext k a : find_agent born k = Some a -> find_agent (born ++ ext) k = Some a.
 Proof.
-  induction l as [|k t IH]; intros w; simpl; [reflexivity|].
-  rewrite IH. apply deregister_obj_born.
+  unfold find_agent. induction born as [|x t IH]; simpl; [discriminate|].
+  destruct (a_key x =? k); [auto|exact IH].
+Qed.
+
+Lemma agent_init_born w m c p :
+  exists ext, w_born (fst (agent_init w m c p)) = w_born w ++ ext /\ (forall a, In a ext -> a_model a = m).
+Proof.
+  unfold agent_init. destruct (getm (w_models w) m).
+  - cbn [fst w_born]. eexists. split; [reflexivity|]. intros a [<-|[]]. reflexivity.
+  - exists []. split; [symmetry; apply app_nil_r|intros a []].
+Qed.
+
+Lemma creates_born m l : forall w,
+  exists ext, w_born (creates w m l) = w_born w ++ ext /\ (forall a, In a ext -> a_model a = m).
+Proof.
+  unfold creates. induction l as [|cv t IH]; intros w; simpl.
+  - exists []. split; [symmetry; apply app_nil_r|intros a []].
+  - destruct (agent_init_born w m (fst cv) (PInt (snd cv))) as [e1 [H1 H2]].
+    destruct (IH (fst (agent_init w m (fst cv) (PInt (snd cv))))) as [e2 [H3 H4]].
+    exists (e1 ++ e2). split; [rewrite H3, H1, app_assoc; reflexivity|].
+    intros a Ha. apply in_app_or in Ha. destruct Ha; auto.
+Qed.
+
+Lemma creates_frame m l j : j <> m -> forall w, getm (w_models (creates w m l)) j = getm (w_models w) j.
+Proof.
+  intros Hne. unfold creates. induction l as [|cv t IH]; intros w; simpl; [reflexivity|].
+  rewrite IH. apply agent_init_frame. exact Hne.
+Qed.
+
+(* agent.remove(), overridden or not, touches the agent's own model only; the heap grows by agents of that model *)
+Lemma obj_remove_born w k :
+  exists ext, w_born (obj_remove w k) = w_born w ++ ext /\
+              (forall a' a, In a' ext -> find_agent (w_born w) k = Some a -> a_model a' = a_model a).
+Proof.
+  unfold obj_remove. destruct (find_agent (w_born w) k) as [a|] eqn:Ef.
+  2:{ exists []. split; [symmetry; apply app_nil_r|intros a' a []]. }
+  destruct (ov_of (a_cls a)) as [o|].
+  2:{ exists []. unfold agent_remove. rewrite deregister_obj_born. split; [symmetry; apply app_nil_r|intros a' a0 []]. }
+  destruct (creates_born (a_model a) (ov_pre o) w) as [e1 [H1 H2]].
+  set (w1 := creates w (a_model a) (ov_pre o)) in *.
+  set (w2 := if ov_super o then agent_remove w1 k else w1).
+  assert (w_born w2 = w_born w1) as E2.
+  { unfold w2. destruct (ov_super o); [unfold agent_remove; apply deregister_obj_born|reflexivity]. }
+  destruct (creates_born (a_model a) (ov_post o) w2) as [e3 [H3 H4]].
+  exists (e1 ++ e3). split; [rewrite H3, E2, H1, app_assoc; reflexivity|].
+  intros a' a0 Ha' Ha0. inversion Ha0; subst a0. apply in_app_or in Ha'. destruct Ha'; auto.
+Qed.
+
+Lemma obj_remove_find w k k' a : find_agent (w_born w) k' = Some a -> find_agent (w_born (obj_remove w k)) k' = Some a.
+Proof. intros H. destruct (obj_remove_born w k) as [ext [E _]]. rewrite E. apply find_agent_app. exact H. Qed.
+
+Lemma obj_remove_frame w k j :
+  (forall a, find_agent (w_born w) k = Some a -> a_model a <> j) ->
+  getm (w_models (obj_remove w k)) j = getm (w_models w) j.
+Proof.
+  intros H. unfold obj_remove. destruct (find_agent (w_born w) k) as [a|] eqn:Ef; [|reflexivity].
+  assert (j <> a_model a) as Hne by (intros ->; exact (H a eq_refl eq_refl)).
+  destruct (ov_of (a_cls a)) as [o|].
+  2:{ apply deregister_obj_frame. intros a0 Ha0. rewrite Ef in Ha0. inversion Ha0; subst. congruence. }
+  rewrite creates_frame by exact Hne.
+  assert (getm (w_models (creates w (a_model a) (ov_pre o))) j = getm (w_models w) j) as E1 by (apply creates_frame; exact Hne).
+  destruct (ov_super o); [|exact E1].
+  unfold agent_remove. rewrite deregister_obj_frame; [exact E1|].
+  intros a0 Ha0. destruct (creates_born (a_model a) (ov_pre o) w) as [ext [Eb _]]. rewrite Eb in Ha0.
+  rewrite (find_agent_app _ ext _ _ Ef) in Ha0. inversion Ha0; subst. congruence.
 Qed.
 
 Lemma fold_remove_frame l j : forall w,
-  (forall k a, In k l -> find_agent (w_born w) k = Some a -> a_model a <> j) ->
-  getm (w_models (fold_left agent_remove l w)) j = getm (w_models w) j.
+  (forall k, In k l -> exists a, find_agent (w_born w) k = Some a /\ a_model a <> j) ->
+  getm (w_models (fold_left obj_remove l w)) j = getm (w_models w) j.
 Proof.
   induction l as [|k t IH]; intros w H; simpl; [reflexivity|].
   rewrite IH.
-  - apply deregister_obj_frame. intros a Ha. apply (H k a); [left; reflexivity|exact Ha].
-  - intros k' a Hin Hf. unfold agent_remove in Hf. rewrite deregister_obj_born in Hf.
-    apply (H k' a); [right; exact Hin|exact Hf].
+  - apply obj_remove_frame. intros a Ha. destruct (H k (or_introl eq_refl)) as [a0 [H1 H2]]. congruence.
+  - intros k' Hin. destruct (H k' (or_intror Hin)) as [a [H1 H2]]. exists a. split; [|exact H2].
+    apply obj_remove_find. exact H1.
 Qed.
 
 Lemma create_loop_frame m c f n j is : forall w,
@@ -1045,8 +1125,12 @@ Lemma remove_all_frame s w m j :
   Inv s w -> j <> m -> getm (w_models (remove_all w m)) j = getm (w_models w) j.
 Proof.
   intros HI Hne. unfold remove_all. destruct (getm (w_models w) m) as [ms|] eqn:Eg; [|reflexivity].
-  apply fold_remove_frame. intros k a Hin Hf.
-  rewrite (hard_agents_of_model s w m ms k a HI Eg Hin Hf). congruence.
+  apply fold_remove_frame. intros k Hin.
+  assert (exists a, find_agent (w_born w) k = Some a) as [a Hf].
+  { pose proof Hin as Hin'. rewrite (mi_hard _ _ _ _ _ (inv_models s w HI m ms Eg)) in Hin'.
+    apply live_spec in Hin'. destruct Hin' as [a0 [H1 [H2 _]]].
+    destruct (find_agent_In _ _ H1) as [a' Hf]. rewrite H2 in Hf. eauto. }
+  exists a. split; [exact Hf|]. rewrite (hard_agents_of_model s w m ms k a HI Eg Hin Hf). congruence.
 Qed.
 
 (* the model a script-free operation acts on *)
@@ -1082,8 +1166,9 @@ Proof.
     pose proof (create_loop_frame m c f n j (seq 0 (Z.to_nat n)) w) as H.
     unfold create_agents. destruct (create_loop w m c f n (seq 0 (Z.to_nat n))) as [w' ks].
     apply H. congruence.
-  - pose proof (deregister_obj_frame w k j) as H.
-    destruct (deregister_obj w k) as [w' [b|]]; apply H; intros a Ha; rewrite Ha in Ht; simpl in Ht; congruence.
+  - destruct (find_agent (w_born w) k) as [a|] eqn:Ef; [|reflexivity].
+    destruct (getm (w_models w) (a_model a)); [|reflexivity]. cbn [fst].
+    apply obj_remove_frame. intros a0 Ha0. rewrite Ef in Ha0. inversion Ha0; subst. simpl in Ht. congruence.
   - pose proof (deregister_obj_frame w k j) as H.
     destruct (deregister_obj w k) as [w' [[|]|]]; apply H; intros a Ha; rewrite Ha in Ht; simpl in Ht; congruence.
   - destruct (getm (w_models w) m); [|reflexivity]. apply (remove_all_frame s); [exact HI|congruence].
